@@ -97,7 +97,7 @@ func TestKeyWrapLengths(t *testing.T) {
 
 func TestKeyWrap(t *testing.T) {
 	sec := vk.Sec(t.Name())
-	vk.Check(t, 2000, 30000, func(rt *rapid.T) {
+	vk.Check(t, 5000, 50000, func(rt *rapid.T) {
 		kek := genBlobN(rt, "kek", rapid.SampledFrom([]int{16, 24, 32}).Draw(rt, "kekLen"))
 		var c kwCase
 		c.KEK = kek
@@ -193,7 +193,7 @@ func TestPaddingLengths(t *testing.T) {
 
 func TestPadding(t *testing.T) {
 	sec := vk.Sec(t.Name())
-	vk.Check(t, 3000, 50000, func(rt *rapid.T) {
+	vk.Check(t, 5000, 80000, func(rt *rapid.T) {
 		c := padCase{Data: genBlob(rt, "data", 300)}
 		if rapid.Bool().Draw(rt, "edgeSize") {
 			c.Size = rapid.SampledFrom(padSizes).Draw(rt, "size")
@@ -343,7 +343,7 @@ func genCBCCase(rt *rapid.T) cbcCase {
 
 func TestAESCBCAEAD(t *testing.T) {
 	sec := vk.Sec(t.Name())
-	vk.Check(t, 4000, 60000, func(rt *rapid.T) {
+	vk.Check(t, 10000, 100000, func(rt *rapid.T) {
 		c := genCBCCase(rt)
 		settle(rt, sec, runCBC(c), vk.FP("cbc", c.Variant, c.Key, c.Nonce, c.CT, c.AAD, c.Plain, c.DstLen, c.DstSpare))
 	})
